@@ -42,7 +42,7 @@ MAX_FNS = {'np.maximum', 'np.max', 'max', 'np.nanmax', 'np.fmax', 'np.amax'}
 
 def run(ctx: Ctx):
   m = model(ctx)
-  for r in (r1, r2, r3, r4, r5, r6, r7, r10, r11, r12, r13, r14, r15, r17, r18, r19, r20):
+  for r in (r1, r2, r3, r4, r5, r6, r7, r10, r11, r12, r13, r14, r15, r17, r18, r19, r20, r23, r24):
     ctx.guard(r, m)
   ctx.include('R-C01-8', 'merge leaves its operand intact and shares no'
               ' mutable state with it (R-C11-1, R-C11-2): a shard state that'
@@ -1343,11 +1343,101 @@ def r20(ctx: Ctx, m):
   ctx.floor(rule, 1, n)
 
 
+def r23(ctx: Ctx, m):
+  rule = 'R-C01-23'
+  ctx.rule(rule, '"splitting the examples arbitrarily into batches ... same result": what update_state does to a BATCH does not'
+           ' depend on whether the state is fresh. In the update_state methods of aggregates/base.py a re-binding of the batch'
+           ' parameter (`inputs = self.preprocess_fn(inputs)`) is not nested under a test of the state parameter'
+           ' (`if state is None:`): pre-processing only the first batch feeds every later batch raw into the same state')
+  mi = ctx.repo.module('aggregates.base')
+  n = 0
+  for ci in mi.classes.values():
+    fi = ci.methods.get('update_state')
+    if fi is None:
+      continue
+    ps = fi.params()
+    if len(ps) < 3:
+      continue
+    state_p, batch_ps = ps[1], set(ps[2:])
+    if fi.node.args.vararg:
+      batch_ps.add(fi.node.args.vararg.arg)
+    pm = parent_map(fi.node)
+    for x in walk_no_nested(fi.node):
+      if not (isinstance(x, ast.Assign) and any(isinstance(t, ast.Name) and t.id in batch_ps for t in x.targets)):
+        continue
+      n += 1
+      guard = None
+      q = x
+      while q in pm:
+        par = pm[q]
+        if isinstance(par, ast.If) and any(isinstance(y, ast.Name) and y.id == state_p for y in ast.walk(par.test)):
+          guard = par
+        q = par
+      what = f'{ci.name}.update_state: `{unparse(x)[:50]}` is applied to every batch'
+      if guard is not None:
+        ctx.fail(rule, fi, what,
+                 f'`{unparse(x)[:60]}` runs only under `{unparse(guard.test)}`: the batch is pre-processed when the state is fresh and'
+                 ' accumulated raw afterwards — the result depends on how the examples were split into batches', node=x)
+      else:
+        ctx.ok(rule, fi, what, x)
+  ctx.floor(rule, 1, n)
+
+
+def r24(ctx: Ctx, m):
+  rule = 'R-C01-24'
+  ctx.rule(rule, '"any number of independent accumulators ... merged": a state object rebuilt from the statistics of another'
+           ' (`Cls(self.k, cm.tp, cm.fp, ...)`) receives each statistic in the parameter of the SAME name. For every call in'
+           ' the aggregate modules to a class of the repository whose constructor parameters are known, a positional'
+           ' argument that is an attribute read / name spelled like ANOTHER parameter of that constructor than the one at'
+           ' its position is a swapped pair (fp handed to tn): the counts are exchanged from the second batch on while one'
+           ' batch is right')
+  repo = ctx.repo
+  ctors = {}
+  for ci in repo.all_classes():
+    init = ci.methods.get('__init__')
+    if init is not None:
+      ctors[ci.name] = [a.arg for a in init.node.args.args[1:]]
+  n = 0
+  for fi in repo.all_functions():
+    if '.aggregates.' not in fi.module.name:
+      continue
+    for c in ast.walk(fi.node):
+      if not (isinstance(c, ast.Call) and isinstance(c.func, ast.Name) and c.func.id in ctors and len(c.args) >= 2):
+        continue
+      ps = ctors[c.func.id]
+      n += 1
+      swapped = None
+      for i, a in enumerate(c.args[:len(ps)]):
+        nm = a.attr if isinstance(a, ast.Attribute) else a.id if isinstance(a, ast.Name) else None
+        if nm is None:
+          continue
+        nm = nm.lstrip('_')
+        if nm != ps[i] and nm in ps:
+          swapped = (a, ps[i], nm)
+          break
+      what = f'{fi.qualname}: positional arguments of `{c.func.id}(...)` meet the parameters of their name'
+      if swapped:
+        ctx.fail(rule, fi, what,
+                 f'`{unparse(c)[:80]}` passes `{unparse(swapped[0])}` in the position of parameter `{swapped[1]}` although {c.func.id} has'
+                 f' a parameter `{swapped[2]}`: the two statistics are exchanged in the rebuilt state', node=c)
+      else:
+        ctx.ok(rule, fi, what, c)
+  ctx.floor(rule, 2, n)
+
+
 from mlmverif.selfcheck import B, OK  # noqa: E402
 
 _R = 'aggregates/rolling_stats.py'
 _C = 'aggregates/classification.py'
 VARIANTS = [
+    B('nested-agg-preprocesses-the-first-batch-only', 'aggregates/base.py',
+      "    if self.preprocess_fn:\n      inputs = self.preprocess_fn(inputs)\n    if state is None:\n", "    if state is None:\n      if self.preprocess_fn:\n        inputs = self.preprocess_fn(inputs)\n", 'R-C01-23'),
+    B('topk-matrix-sum-swaps-fp-and-tn', 'aggregates/classification.py',
+      "  def __eq__(self, other):\n    \"\"\"Numerically equals.\"\"\"\n    return np.allclose(self.k, other.k) and super().__eq__(other)",
+      "  def __add__(self, other):\n    cm = super().__add__(other)\n    return _TopKConfusionMatrix(self.k, cm.tp, cm.fp, cm.tn, cm.fn)\n\n  def __eq__(self, other):\n    \"\"\"Numerically equals.\"\"\"\n    return np.allclose(self.k, other.k) and super().__eq__(other)", 'R-C01-24'),
+    OK('topk-matrix-sum-in-constructor-order', 'aggregates/classification.py',
+       "  def __eq__(self, other):\n    \"\"\"Numerically equals.\"\"\"\n    return np.allclose(self.k, other.k) and super().__eq__(other)",
+       "  def __add__(self, other):\n    cm = super().__add__(other)\n    return _TopKConfusionMatrix(self.k, cm.tp, cm.tn, cm.fp, cm.fn)\n\n  def __eq__(self, other):\n    \"\"\"Numerically equals.\"\"\"\n    return np.allclose(self.k, other.k) and super().__eq__(other)"),
     B('regression-add-updates-in-place', 'aggregates/rolling_stats.py',
       "    self.sum_x = self.sum_x + np.sum(x, axis=0)", "    self.sum_x += np.sum(x, axis=0)", 'R-C01-22'),
     B('counter-of-a-flat-array-through-unique', _R,
